@@ -14,14 +14,31 @@ TReset == IsEvent("Reset") /\ st' = Empty /\ step' = 0 /\ Keep
 Project(cs) == [n \in 1..Len(cs) |-> [k |-> cs[n].k, ijhead |-> TRUE, complnum |-> cs[n].complnum, sort |-> cs[n].sort,
                                       state |-> cs[n].state, rec |-> cs[n].rec, mult |-> cs[n].mult]]
 After == EndStep(ApplyOps(st, Ev.ops))
-StepOk == Ev.res = "ok" /\ \A w \in Wells : Project(After.conns[w]) = Ev.obs[w]
-TStep == IsEvent("Step") /\ StepOk /\ st' = After /\ step' = step + 1 /\ Keep
+\* for a well with laterals the list must hold the specified connections, and a step that adds no
+\* connection must leave the order of the list as it was
+Before(w) == {c.k : c \in Range(st.conns[w])}
+KsOf(seq) == [n \in 1..Len(seq) |-> seq[n].k]
+FreeOk(w) == /\ Len(Ev.obs[w]) = Len(After.conns[w])
+             /\ Range(Ev.obs[w]) = Range(Project(After.conns[w]))
+             \* (a new connection may change the walk along the track and with it the order of the old ones;
+             \*  re-entered COMPDAT, WPIMULT and WELOPEN add none and must leave the order as it was)
+             /\ (Len(Ev.obs[w]) = Len(st.conns[w]) => KsOf(Ev.obs[w]) = KsOf(st.conns[w]))
+StepOk == /\ Ev.res = "ok"
+          /\ \A w \in Wells \ FreeOrder : Project(After.conns[w]) = Ev.obs[w]
+          /\ \A w \in FreeOrder : FreeOk(w)
+\* the specification's list of a well with laterals follows the observed order
+Observed(w) == [n \in 1..Len(Ev.obs[w]) |-> [k |-> Ev.obs[w][n].k, complnum |-> Ev.obs[w][n].complnum, sort |-> Ev.obs[w][n].sort,
+                                              state |-> Ev.obs[w][n].state, rec |-> Ev.obs[w][n].rec, mult |-> Ev.obs[w][n].mult]]
+TStep == /\ IsEvent("Step") /\ StepOk /\ step' = step + 1 /\ Keep
+         /\ st' = [After EXCEPT !.conns = [w \in Wells |-> IF w \in FreeOrder THEN Observed(w) ELSE After.conns[w]]]
 TDiag == /\ l <= Len(TraceLog) /\ Ev.e = "Step" /\ ~StepOk
          /\ PrintT(<<"DIAG", l, [expected |-> IF Ev.res = "ok" THEN [w \in Wells |-> Project(After.conns[w])] ELSE <<>>]>>)
          /\ FALSE /\ UNCHANGED tvars
 TNext == TReset \/ TStep \/ TDiag
 TraceSpec == TInit /\ [][TNext]_tvars
 TraceAccepted == TLCGet("stats").diameter - 1 = Len(TraceLog)
-TWells == {"W1", "W2"}
+TWells == {"W1", "W2", "W3"}
+TFree == {"W3"}
+TFreeCells == {221, 222, 121, 122, 321, 322, 211, 231}
 TInput == {"W1"}
 =============================================================================
